@@ -102,3 +102,7 @@ func vClockMode(mode int) {}
 
 // vFaults enables symbolic OpenFile / Write failures.
 func vFaults(open, write int) {}
+
+// vClockCount / vClockReading expose the symbolic clock's readings (engine only).
+func vClockCount() int          { return 0 }
+func vClockReading(i int) int64 { return 0 }
